@@ -71,6 +71,11 @@ def compare(cfg, ops):
         # is delivered depends on the order of simultaneous timers (not compared), *that* it is delivered does not
         pair[kind] = r
     upto = min(first_silence(pair['threaded']), first_silence(pair['asyncio']))
+    # a stimulus whose precondition holds on one server only (a cancellation of a handshake task that one of them has already ended) is
+    # executed by one runner only: from there on the two did not receive the same stimuli and their step numbers no longer correspond
+    la, lb = pair['threaded'].log, pair['asyncio'].log
+    common = next((i for i, (x, y) in enumerate(zip(la, lb)) if x != y), min(len(la), len(lb)))
+    upto = min(upto, common)
     a, b = obs(pair['threaded'], upto), obs(pair['asyncio'], upto)
     case = dict(cfg=cfg.key(), ops=ops)
     disc_all = any(op == ('disc', None) for r in pair.values() for op in r.log[:upto])      # (the runners' logs: a stimulus whose precondition does not hold is not executed)
@@ -94,6 +99,9 @@ def compare(cfg, ops):
         # upgrade of the session is still in progress so that it cannot be read
         cut = upto < min(len(x.log) for x in pair.values())          # (the logs differ in length by the final reads alone)
         excused = cut or ended or oracles.handshake_in_progress(rl, s, len(rl.log) - 1)
+        if ended:
+            # what a session still held when it ended is not read any more on either server: only what was delivered must agree
+            return long_[:len(short)] == short
         return excused and long_[:len(short)] == short and len(long_) - len(short) <= queued
 
     if any(not same_session(s) for s in set(a[0]) | set(b[0])):
